@@ -2,7 +2,7 @@
    occupancy after every step and the per-caller outcomes.
    case = [kind; ...]
      0 server : [0; variant; max; pre; closes; sched; counts; outcomes]      macro steps, see smacro
-     1 reg    : [1; which(0 tunnel,1 control); max; ops; refused; keys]      ops = [0;id;created] | [1;id]
+     1 reg    : [1; which(0 tunnel,1 control); max; ops; refused; keys; authevict]   ops = [0;id;created(;client)] | [1;id] | [2;id;client]
      2 mapseq : [2; variant; max; ops; counts; outcomes]                      ops = [0] open | [1;k] close k-th arrival
      3 quota  : [3; variant; max; pre; n; sched; counts; outcomes]            see quota_check
      4 qfault : [4; policy; max; nrecs; trace; outcomes]                      see qfault_check
@@ -83,10 +83,27 @@ Fixpoint r_replay (apply : rop -> list (N * N) -> rres * list (N * N)) (m : list
       Bool.eqb (is_refused res) (vbool r) && keyset_eq m' (vl k) && r_replay apply m' os rs ks
   | _, _, _ => false
   end.
+(* control registry: identities matter (UpdateAuth removes the connection the client id resolved to when the tree has
+   /repo eb41b39 — flag at position 6 of the case) *)
+Definition dec_xop (v : tval) : xop :=
+  match vn (vnth 0 v) with
+  | 0 => XReg (vn (vnth 1 v)) (vn (vnth 2 v)) (vn (vnth 3 v))     (* a missing 4th element decodes as client 0 *)
+  | 1 => XRem (vn (vnth 1 v))
+  | _ => XAuth (vn (vnth 1 v)) (vn (vnth 2 v))
+  end%N.
+Fixpoint x_replay (b : bool) (max : nat) (r : cregx) (ops refused keys : list tval) : bool :=
+  match ops, refused, keys with
+  | [], [], [] => true
+  | o :: os, f :: fs, k :: ks =>
+      let '(res, r') := cregx_apply b max (dec_xop o) r in
+      Bool.eqb (is_refused res) (vbool f) && keyset_eq (x_map r') (vl k) && x_replay b max r' os fs ks
+  | _, _, _ => false
+  end.
 Definition reg_check (v : tval) : bool :=
   let max := vnat (vnth 2 v) in
-  r_replay (if vbool (vnth 1 v) then creg_apply max else treg_apply max) []
-           (vl (vnth 3 v)) (vl (vnth 4 v)) (vl (vnth 5 v)).
+  if vbool (vnth 1 v)
+  then x_replay (vbool (vnth 6 v)) max x_empty (vl (vnth 3 v)) (vl (vnth 4 v)) (vl (vnth 5 v))
+  else r_replay (treg_apply max) [] (vl (vnth 3 v)) (vl (vnth 4 v)) (vl (vnth 5 v)).
 
 (* ---- client mapping, whole-connection histories
    ops: [0] open (carried through to a running tunnel, or refused), [1;k] the k-th arrival's connection ends,
